@@ -32,7 +32,8 @@ EXPLANATION = (
     "every cone exactly its own range of every vector argument."
     " (R10) dense second-order cone KKT block: packed upper triangle of eta^2 (2 w w' - J) - entry (0,0) = 2 w0^2 - 1 modulo (sqrt 2)^2 = 2, later columns 2 w_r w_c with +1 on the diagonal, scaled by eta^2."
     " (R11) identity scaling of the second-order cone: w = (1, 0), eta = 1 and the sparse expansion satisfies d + u0^2 - v0^2 = 1 (modulo (1/sqrt 2)^2 = 1/2) with zero tails."
-    " (R12) the interior test of the second-order cone scaling is residual > 0 exactly.")
+    " (R12) the interior test of the second-order cone scaling is residual > 0 exactly."
+    ' (R13) combined_step_rhs: the Mehrotra factor M scales exactly one affine direction before combined_ds_shift, iff M != 1; the shift, which contains the centring term, is added to d.s with coefficient one.')
 ASSUMPTIONS = ['rustc MIR construction and trait resolution are correct',
                'sqrt, *, /, dot, norm, axpby, waxpby, scale on T are the real operations (identities are over the reals, not floating point); s, z interior',
                'the diagonal KKT block is minus get_Hs (decided under C11)']
@@ -968,6 +969,48 @@ def soc_interior_test(rep, ctx, cfg, tag):
     R.guard(body)
 
 
+def corrector_assembly(rep, F, tag):
+    """"the affine and corrector terms obey their algebraic definitions": d.s = lambda o lambda + M (W^-1 ds o W dz) - sigma mu e.  The shift returned by
+    combined_ds_shift already contains the centring term - sigma mu e, so the Mehrotra factor M may enter only through one of the two affine directions
+    *before* the shift is formed (the shift is bilinear in them); the shift is then added to the affine right-hand side with both coefficients one."""
+    R = rep.rule('C13.R13', 'combined_step_rhs: M scales exactly one affine direction before combined_ds_shift (iff M != 1); the shift (with its - sigma mu e) is added to d.s with coefficient one')
+
+    def body():
+        fs = [x for x in F.find(name='combined_step_rhs') if 'DefaultVariables' in (x.impl_self or '')]
+        if len(fs) != 1:
+            raise AnchorError('DefaultVariables::combined_step_rhs matched %d functions' % len(fs))
+        f = fs[0]
+        n = 0
+        for val, ret, ev, tr in Walker(f, cut_loops=True, local_stores=True).leaves():
+            if ret[0] == 'diverge':
+                continue
+            n += 1
+            calls = [(e[1], str(e[2])) for e in ev if e[0] == 'call']
+            sh = [i for i, c in enumerate(calls) if c[0] == 'combined_ds_shift']
+            if not R.check(len(sh) == 1, 'one-shift' + tag, '%d calls of combined_ds_shift on a path' % len(sh), f.loc()):
+                continue
+            i0 = sh[0]
+            a = split_args(calls[i0][1])
+            R.check(a[1:] == ['self.z', 'arg5.z', 'arg5.s', 'mul(arg6, arg7)'] or a[1:] == ['self.z', 'arg5.z', 'arg5.s', 'mul(arg7, arg6)'], 'shift-args' + tag,
+                    'combined_ds_shift(%s), expected (shift = d.z as work, step.z, step.s, sigma*mu)' % ', '.join(x[:20] for x in a[1:]), f.loc())
+            scaled = [c[1] for c in calls[:i0] if c[0] == 'scale' and split_args(c[1])[0] in ('arg5.z', 'arg5.s')]
+            late = [c[1] for c in calls[i0 + 1:] if c[0] in ('scale', 'axpby', 'hadamard') and 'arg8' in c[1]]
+            R.check(not late, 'm-after-shift' + tag, 'the Mehrotra factor M is applied after the shift has been formed (%s): the shift contains the centring term - sigma mu e, which must '
+                    'not be scaled by M' % [x[:60] for x in late], f.loc())
+            m_is_one = [v for k, v in val.items() if k in ('ne(arg8, one())', 'ne(one(), arg8)')] + [1 - v for k, v in val.items() if k in ('eq(arg8, one())', 'eq(one(), arg8)')]
+            if m_is_one and m_is_one[0] == 0:
+                R.check(not scaled, 'm-one-no-scale' + tag, 'with M == 1 a direction is scaled: %s' % scaled, f.loc())
+            else:
+                R.check(len(scaled) == 1 and split_args(scaled[0])[1] == 'arg8', 'm-scales-one-direction' + tag,
+                        'with M != 1 the directions scaled before the shift are %s: exactly one of step.z / step.s must be scaled by M (the correction is bilinear in them)' % [x[:40] for x in scaled], f.loc())
+            acc = [c[1] for c in calls[i0 + 1:] if c[0] in ('axpby', 'axpy', 'add_assign') and split_args(c[1])[0] == 'self.s']
+            R.check(acc in (['axpby(self.s, one(), self.z, one())'],), 'shift-added-once' + tag,
+                    'the shift is accumulated into d.s by %s, expected d.s = 1 * shift + 1 * d.s' % [x[:60] for x in acc], f.loc())
+        R.check(n >= 1, 'paths' + tag, 'no path of combined_step_rhs analysed')
+
+    R.guard(body)
+
+
 def run(ctx, rep, tier):
     for cfg in (CONFIGS_THOROUGH if tier == 'thorough' else CONFIGS):
         tag = '' if cfg == 'default' else '[%s]' % cfg
@@ -982,6 +1025,7 @@ def run(ctx, rep, tier):
         soc_dense_block(rep, ctx, cfg, tag)
         soc_identity_expansion(rep, ctx, cfg, tag)
         soc_interior_test(rep, ctx, cfg, tag)
+        corrector_assembly(rep, ctx.facts(cfg), tag)
     from . import c11
     F, E = ctx.facts('default'), ctx.eff('default')
     c11.one_scaling_state(_Ren(rep, 'C11.R5', 'C13.R3'), F, E, '')
